@@ -180,7 +180,9 @@ def is_nan(v):
 
 
 def as_complex(v):
-  if isinstance(v, (int, float, complex)) and not isinstance(v, bool):
+  # (Fraction: an exact output sample is as good a number as a float)
+  if isinstance(v, (int, float, complex, Fraction)) and \
+     not isinstance(v, bool):
     return complex(v)
   return None
 
